@@ -202,13 +202,24 @@ def oracle(ctx):
     rnd = ctx.rnd
     cases = (getattr(ctx, '_c12', None) or [(svc, gen_install(rnd, svc)) for svc in [rnd.choice(SVC_FILES) for _ in range(500)]])[: (1200 if ctx.thorough else 300)]
 
+    def service_name_of(svc, inst):
+        # the name of the service is user input too (ServiceName=): a value that looks like a path out of the output directory names
+        # the file by its last component only
+        if '@' in svc:
+            return None   # (templates keep their own naming rules; the path-like names are tried on plain units)
+        return [None, None, None, '../escaped-' + svc[:-8], 'sub/dir/inner-' + svc[:-8], 'SANDBOX/decoy-abs-' + svc[:-8]][sum(map(ord, inst + svc)) % 6]
+
     def run(case):
         svc, inst = case
         stem = svc[:-len('.service')]
-        files = {'src/' + stem + '.container': '[Container]\nImage=localhost/i\n' + inst,
+        sn = service_name_of(svc, inst)
+        if sn:
+            svc = os.path.basename(sn) + '.service'
+        files = {'src/' + stem + '.container': '[Container]\nImage=localhost/i\n' + (f'ServiceName={sn}\n' if sn else '') + inst,
                  'decoy.txt': 'decoy', 'abs.target': 'x', 'escape.service': 'keep me', 'sub/decoy2': 'y'}
         base = e2e.fresh_dir()
         os.makedirs(os.path.join(base, 'src'))
+        files = {k: v.replace('SANDBOX', base) for k, v in files.items()}
         e2e.write_tree(base, files)
         out = os.path.join(base, 'sand', 'out')
         os.makedirs(os.path.dirname(out))
@@ -237,6 +248,9 @@ def oracle(ctx):
     for (svc, inst), (base, out, rc, se, before, after, links, resolved) in zip(cases, e2e.pmap(run, cases)):
         res.oracle_evals += 1
         fails = []
+        sn = service_name_of(svc, inst)
+        if sn:
+            svc = os.path.basename(sn) + '.service'
         relout = os.path.relpath(out, base)
         outside = {k: (before.get(k), after.get(k)) for k in set(before) | set(after)
                    if before.get(k) != after.get(k) and not (k == relout or k.startswith(relout + '/') or k == 'sand')}
